@@ -199,6 +199,13 @@ fn last_phase(site: &str, fast: bool) -> u8 {
     }
 }
 
+/// Operation name given with documents that hold one anonymous operation: parsing, both limit
+/// walkers and the whole validation run exactly as without a name (no rule looks at the name of
+/// an anonymous operation), then `prepare_request` answers "Unknown operation named …" instead of
+/// executing. Execution is outside the statement and is itself exponential on the fan-out
+/// families (2^n resolver calls), which would only burn time.
+const NO_SUCH_OPERATION: &str = "AgvNoSuchOperation";
+
 struct Meas {
     counts: BTreeMap<String, u64>,
     /// (site, count reached) when the budget cut the run
@@ -225,6 +232,7 @@ fn measure(schema: &S, cfg: &Config, doc: &str, op: Option<&str>, budget: u64) -
         Ok(Some(resp)) => {
             let outcome = match resp.errors.first() {
                 None => "executed".to_string(),
+                Some(e) if e.message.contains(NO_SUCH_OPERATION) => "checked".to_string(),
                 Some(e) => format!("rejected: {}", e.message.chars().take(60).collect::<String>()),
             };
             Ok(Meas { counts, cut: None, outcome, wall_us })
@@ -542,7 +550,7 @@ pub fn run(cx: &Cx) {
     cx.assume("a bounded family cannot prove an asymptotic statement: the check decides the property on the stated documents and sizes only");
     cx.assume("work is what hook H1 counts (selection visits / graph nodes expanded per walker) and what pest counts as calls; per-visit cost is taken to be bounded by a polynomial in s (argument comparison in FindConflicts, variable lookup by linear search are not counted separately)");
     cx.assume("generated documents use O(1) bytes per AST node (single spaces, short names); parser work per byte of padding (whitespace, comments, long names) is not part of s and is not explored");
-    cx.assume("execution after the checks is not judged (it is outside the statement); wall time is recorded and decides nothing");
+    cx.assume("execution after the checks is not judged (it is outside the statement): family documents with one anonymous operation are sent with an operation name that does not exist, so Schema::execute parses, runs both limit walkers and the complete validation and then answers 'Unknown operation named' instead of executing (execution of a fan-out document is itself 2^n resolver calls); DAG documents and the named-operation families execute. Wall time is recorded and decides nothing");
     cx.assume("the parser meter is the smallest call limit that lets the parse succeed, found by bisection (families) or decided by one parse under the bound (DAG documents); pest's limit is process-wide, so parser metering runs in phases separate from execution");
 
     let schemas: Vec<S> = CONFIGS.iter().map(build).collect();
@@ -568,6 +576,12 @@ pub fn run(cx: &Cx) {
 
     let mut all_rows: Vec<Row> = Vec::new();
     let mut nontrivial: Vec<u64> = Vec::new();
+    let mut phases: Vec<(String, f64)> = Vec::new();
+    let mut t_phase = std::time::Instant::now();
+    let mut lap = |name: &str, phases: &mut Vec<(String, f64)>| {
+        phases.push((name.to_string(), (t_phase.elapsed().as_secs_f64() * 1000.0).round() / 1000.0));
+        t_phase = std::time::Instant::now();
+    };
 
     // ---- part (ii): families, executions in parallel
     let fams = families(max_n);
@@ -583,6 +597,7 @@ pub fn run(cx: &Cx) {
         .flat_map(|f| {
             f.sizes.iter().map(move |n| {
                 let (doc, op) = (f.gen)(*n);
+                let op = op.or_else(|| Some(NO_SUCH_OPERATION.to_string()));
                 let s = async_graphql_parser::parse_query(&doc).ok().map(|d| doc_size(&d));
                 FamElem { family: f.name, n: *n, doc, op, s }
             })
@@ -621,11 +636,16 @@ pub fn run(cx: &Cx) {
         if j.nontrivial {
             nontrivial.push(agv_engine::h64(&(&e.doc, CONFIGS[ci].name)));
         }
+        let expected_outcome = matches!(m.outcome.as_str(), "checked" | "executed" | "budget") || CONFIGS[ci].name == "strict-tight" || (e.family == "complexity-nesting" && m.outcome.contains("too complex"));
+        if !expected_outcome {
+            cx.machinery_error(format!("{} n={} under {}: the generated document should pass every check, got `{}`", e.family, e.n, CONFIGS[ci].name, m.outcome));
+        }
         wall_by_elem.insert((ei, ci), m.wall_us);
         outcome_by_elem.insert((ei, ci), m.outcome.clone());
         all_rows.extend(j.rows);
     }
 
+    lap("family executions (parallel)", &mut phases);
     // ---- part (ii): parser meter, serial
     let mut parser_rows: Vec<(usize, u64, Option<u64>)> = Vec::new(); // (elem, bound, calls)
     let mut unparsed: Vec<J> = Vec::new();
@@ -646,6 +666,7 @@ pub fn run(cx: &Cx) {
         }
     }
 
+    lap("family parser meter (serial)", &mut phases);
     // ---- part (i): every DAG, executions in parallel
     let mut dag_summary = Vec::new();
     let mut dag_rows: Vec<Row> = Vec::new();
@@ -716,6 +737,7 @@ pub fn run(cx: &Cx) {
             });
         cx.evals(space.total * CONFIGS.len() as u64);
         cx.nontrivial_count(acc.nontrivial);
+        lap(&format!("dag k={k} executions (parallel)"), &mut phases);
         for e in acc.errors.iter().take(5) {
             cx.machinery_error(e.clone());
         }
@@ -743,6 +765,7 @@ pub fn run(cx: &Cx) {
         }
         cx.evals(space.total);
         parser_over.sort();
+        lap(&format!("dag k={k} parser (parallel per size class)"), &mut phases);
         for (idx, s, pb) in parser_over.iter().take(3) {
             let (doc, _) = space.doc(*idx);
             let calls = parser_calls(&doc, pb.saturating_mul(1 << 10));
@@ -855,6 +878,7 @@ pub fn run(cx: &Cx) {
     cx.extra("families", json!({"count": fams.len(), "documents": elems.len(), "executions": elems.iter().filter(|e| e.s.is_some()).count() * CONFIGS.len(), "largest_count_over_bound": summary}));
     cx.extra("growth_of_violating_pairs", J::Object(growth_tables));
     cx.extra("not_a_document", json!(unparsed));
+    cx.extra("phase_wall_s_not_judged", json!(phases));
     // outcomes (what the server answered) and wall time: recorded, not judged
     let mut outcomes: BTreeMap<String, u64> = BTreeMap::new();
     for ((_, ci), o) in &outcome_by_elem {
